@@ -20,7 +20,7 @@ func (c *vScriptConn) Read(p []byte) (int, error) {
 		return 0, io.EOF
 	}
 	c.reads++
-	chunk := vBytes(8)
+	chunk := vBytes(8 - 4*vTier()) // thorough: one more read, of up to 4 bytes
 	vAssume(len(chunk) >= 1)
 	vAssume(len(chunk) <= len(p))
 	copy(p, chunk)
@@ -32,7 +32,7 @@ func (c *vScriptConn) RemoteAddr() net.Addr { return nil }
 // One ReadFrom call from an arbitrary buffered prefix: the inductive step of "buff = bytes received
 // and not yet returned".
 //
-//verif:props=C10,C09 unwind=6 timeout=60000 bounds="buffered bytes 0..70000 symbolic; up to 2 (quick) / 3 (thorough) further reads of 1..8 arbitrary bytes each"
+//verif:props=C10,C09 unwind=6 timeout=60000 bounds="buffered bytes 0..70000 symbolic; up to 2 further reads of 1..8 arbitrary bytes each (quick) / 3 further reads of 1..4 bytes (thorough)"
 func VerifHarness_C10_readfrom_step() {
 	b0 := vBigBytes(70000, 24)
 	conn := &vScriptConn{maxReads: 2 + vTier()}
